@@ -10,11 +10,11 @@ import (
 // renaming and moving declarations does not disturb a rule.
 
 const (
-	astPath   = modPath + "/ast"
-	tokPath   = modPath + "/token"
-	lexPkgPath   = modPath + "/lexer"
-	parsePath = modPath + "/parser"
-	hctxPath  = modPath + "/helpers/hctx"
+	astPath    = modPath + "/ast"
+	tokPath    = modPath + "/token"
+	lexPkgPath = modPath + "/lexer"
+	parsePath  = modPath + "/parser"
+	hctxPath   = modPath + "/helpers/hctx"
 )
 
 // compilerType: the struct type of the root package that has a field of type
@@ -206,9 +206,9 @@ func (w *World) parserMethods() []*FuncInfo {
 // Registration is one registerPrefix/registerInfix call site resolved to the
 // token constant and the parse function it registers.
 type Registration struct {
-	Token   string      // string value of the token constant
-	TokExpr ast.Expr    // the token argument
-	Fn      *FuncInfo   // resolved method, nil for a function literal
+	Token   string    // string value of the token constant
+	TokExpr ast.Expr  // the token argument
+	Fn      *FuncInfo // resolved method, nil for a function literal
 	Lit     *ast.FuncLit
 	Call    *ast.CallExpr
 	Infix   bool
